@@ -114,6 +114,33 @@ fn serve(listener: TcpListener, sc: Value, stop: Arc<AtomicBool>) {
                 let _ = s.write_all(b"HTTP/1.1 200 OK\r\nTransfer-Encoding: chunked\r\n\r\n5\r\nhello\r\n");
                 hold(&mut s, &mode, b"1", interval, stall, &stop);
             }
+            "resume" => {
+                // half of a length-delimited body, a pause longer than the client's read timeout, the other half
+                let _ = s.write_all(b"HTTP/1.1 200 OK\r\nContent-Length: 20\r\n\r\n0123456789");
+                let _ = s.flush();
+                hold(&mut s, "silent", b"x", interval, Duration::from_millis(700), &stop);
+                let _ = s.write_all(b"abcdefghij");
+                let _ = s.flush();
+                hold(&mut s, "silent", b"x", interval, Duration::from_millis(300), &stop);
+            }
+            "rst-close" | "rst-length" | "rst-chunked" => {
+                // part of the body, then the connection is reset (SO_LINGER 0): never a clean end of body
+                let head: &[u8] = match phase.as_str() {
+                    "rst-close" => b"HTTP/1.1 200 OK\r\n\r\n0123456789",
+                    "rst-length" => b"HTTP/1.1 200 OK\r\nContent-Length: 1000\r\n\r\n0123456789",
+                    _ => b"HTTP/1.1 200 OK\r\nTransfer-Encoding: chunked\r\n\r\n5\r\nhello\r\n3e8\r\n0123456789",
+                };
+                let _ = s.write_all(head);
+                let _ = s.flush();
+                std::thread::sleep(Duration::from_millis(150));
+                unsafe {
+                    use std::os::unix::io::AsRawFd;
+                    let lg = libc::linger { l_onoff: 1, l_linger: 0 };
+                    libc::setsockopt(s.as_raw_fd(), libc::SOL_SOCKET, libc::SO_LINGER, &lg as *const _ as *const libc::c_void, std::mem::size_of::<libc::linger>() as u32);
+                }
+                drop(s);
+                continue;
+            }
             "hops" => {
                 std::thread::sleep(hop_delay);
                 if conn_no <= hops {
@@ -198,7 +225,10 @@ pub fn run(sc: &Value) -> Vec<String> {
         }
         let mut b = if phase == "upload" { attohttpc::post(&url) } else { attohttpc::get(&url) };
         b = b.proxy_settings(ps.build()).read_timeout(Duration::from_millis(r_ms as u64)).connect_timeout(Duration::from_secs(2));
-        if t_ms > 0 {
+        if gb(sc, "zeroT") {
+            // an overall timeout of zero (the rest of a used-up budget) is a timeout, not "none"
+            b = b.timeout(Duration::ZERO);
+        } else if t_ms > 0 {
             b = b.timeout(Duration::from_millis(t_ms as u64));
         }
         if tls_phase {
@@ -235,6 +265,7 @@ pub fn run(sc: &Value) -> Vec<String> {
             k
         })?;
         let mut buf = [0u8; 4096];
+        let mut retries = 0usize;
         loop {
             match rp.read(&mut buf) {
                 Ok(0) => {
@@ -242,6 +273,10 @@ pub fn run(sc: &Value) -> Vec<String> {
                     break;
                 }
                 Ok(n) => delivered += n,
+                Err(e) if gb(sc, "retryTimeouts") && matches!(e.kind(), std::io::ErrorKind::TimedOut | std::io::ErrorKind::WouldBlock) && retries < 20 => {
+                    // a timed-out read of a length-delimited body is not the end: the caller reads again
+                    retries += 1;
+                }
                 Err(e) => {
                     timed_out = matches!(e.kind(), std::io::ErrorKind::TimedOut | std::io::ErrorKind::WouldBlock);
                     return Err(format!("Io:{:?}", e.kind()));
@@ -283,11 +318,12 @@ pub fn run(sc: &Value) -> Vec<String> {
         threads_left = count_dir("/proc/self/task").saturating_sub(base_threads);
         fds_left = count_dir("/proc/self/fd").saturating_sub(base_fds);
     }
-    let stall = phase != "none";
+    let rst = phase.starts_with("rst-");
+    let stall = phase != "none" && phase != "resume" && !rst;
     let body_phase = matches!(phase.as_str(), "between-head-body" | "inside-length" | "inside-close" | "inside-chunk" | "chunk-size-line" | "tls-body" | "tunnel-body");
     vec![json!({"ev":"rt","id":gs(sc,"id"),"phase":phase,"mode":gs(sc,"mode"),"T":t_ms,"R":r_ms,"stall":stall,"readSide":phase != "upload",
         "bodyPhase":body_phase,"elapsed":elapsed,"res":r,"kind":kind,"timedOut":timed_out,"eofClean":eof_clean,"postEofTimeouts":post_eof_timeouts,
-        "delivered":delivered,"checkedRelease":check_release,"threadsLeft":threads_left,"fdsLeft":fds_left})
+        "delivered":delivered,"rst":rst,"checkedRelease":check_release,"threadsLeft":threads_left,"fdsLeft":fds_left})
     .to_string()]
 }
 
@@ -338,6 +374,18 @@ pub fn generate(seed: u64, tier: &str, release: bool) -> Vec<Value> {
             out.push(json!({"id":format!("rt-{}", id),"phase":"none","mode":"silent","T":400,"R":2000,"body":body,"prepareDelayMs":pd,"resendAfterMs":ra,"postReads":1}));
             id += 1;
         }
+    }
+    // an overall timeout of zero against a silent peer; a body that resumes after a pause longer than the read timeout;
+    // a connection reset in mid-body under each framing
+    out.push(json!({"id":format!("rt-{}", id),"phase":"before-head","mode":"silent","T":1,"R":2000,"zeroT":true}));
+    id += 1;
+    out.push(json!({"id":format!("rt-{}", id),"phase":"inside-length","mode":"silent","T":1,"R":2000,"zeroT":true}));
+    id += 1;
+    out.push(json!({"id":format!("rt-{}", id),"phase":"resume","mode":"silent","T":0,"R":300,"retryTimeouts":true}));
+    id += 1;
+    for ph in ["rst-close", "rst-length", "rst-chunked"] {
+        out.push(json!({"id":format!("rt-{}", id),"phase":ph,"mode":"silent","T":0,"R":2000}));
+        id += 1;
     }
     // a peer that is silent during the TLS handshake itself: directly and inside a CONNECT tunnel
     for phase in ["tls-handshake", "tunnel-handshake"] {
